@@ -289,6 +289,15 @@ theorem step_cursor (k k' : List K) (s s' : State) (h : step k s = some (k', s')
             (fun _ x => Inside_dropGuards _ _ x)
         · rw [undo_perform]
           exact cursorAdv_quiet _ _ _ _ hin rfl rfl (fun _ => rfl) (fun _ x => x)
+      | async c =>
+        simp only [step] at h
+        split at h <;> (simp only [Option.some.injEq, Prod.mk.injEq] at h; rw [← h.1, ← h.2])
+        · exact cursorAdv_quiet _ _ _ _ hin rfl rfl (fun _ => rfl) (fun _ x => x)
+        · refine ⟨?_, fun _ => ⟨[], by simp [setDesc], ?_⟩⟩
+          · show Inside (K.cmd c :: K.undo [stdinDesc s] :: _) _
+            simp only [Inside, List.head?_cons]
+            exact ⟨rfl, hin⟩
+          · simp only [outerDesc, List.head?_cons, Option.getD_some]; simp
       | ifc c t e he =>
         simp only [step, Option.some.injEq, Prod.mk.injEq] at h; rw [← h.1, ← h.2]
         exact cursorAdv_quiet _ _ _ _ hin rfl rfl (fun _ => by rw [outerDesc_cmds]; rfl)
@@ -382,6 +391,7 @@ theorem runK_cursor (n : Nat) (k : List K) (s : State) (hfin : (runK n k s).2 = 
           | cmd c =>
             cases c with
             | redir rs c => simp only [step] at hst; split at hst <;> (try split at hst) <;> simp at hst
+            | async c => simp only [step] at hst; split at hst <;> simp at hst
             | simple ws here => simp [step] at hst
             | ifc c t e he => simp [step] at hst
             | loop u c b => simp [step] at hst
